@@ -369,3 +369,118 @@ Example apl_trailing_zero_normalised :
             hand_decode_rdata HApl None b 0 (length b) = Ok [VL [[VI 3; VI 0; VB [171]; VI 8]]] /\
             hand_encode_rdata HApl None [VL [[VI 3; VI 0; VB [171]; VI 8]]] = Ok b.
 Proof. eexists. repeat split; vm_compute; reflexivity. Qed.
+
+(* ------------------------------------------------------------------ SVCB / HTTPS *)
+Lemma svcb_params_rt : forall ps b fuel A P prior,
+  forallb svcb_param_row_ok ps = true -> strictly_asc prior (svcb_keys ps) = true ->
+  svcb_params_enc ps = Ok b -> (length b < fuel)%nat ->
+  svcb_params_dec fuel (A ++ b ++ P) (length A + length b) (length A) prior
+  = Ok (ps, (length A + length b)%nat).
+Proof.
+  induction ps as [|r rr IH]; intros b fuel A P prior Hv Hasc He Hf; cbn [svcb_params_enc] in He.
+  - apply Ok_inj in He. subst b. destruct fuel; cbn [svcb_params_dec length]; rewrite Nat.add_0_r, Nat.leb_refl; reflexivity.
+  - cbn [forallb] in Hv. apply andb_prop in Hv as [Hr Hv2].
+    destruct r as [|[k| | ] [|[ |raw| ] [|]]]; cbn [svcb_param_row_ok] in Hr; try discriminate.
+    apply andb_prop in Hr as [Hr Hok]. apply andb_prop in Hr as [Hr Hlen]. apply andb_prop in Hr as [Hk0 Hk1].
+    destruct ((0 <=? k) && (k <? 65536) && (zlen raw <? 65536)) eqn:Hrng; [|discriminate].
+    inv_bind He. apply Ok_inj in He. subst b. rename x into rest.
+    cbn [svcb_keys flat_map app] in Hasc. fold (svcb_keys rr) in Hasc.
+    cbn [strictly_asc] in Hasc. apply andb_prop in Hasc as [Hpk Hasc2].
+    pose proof (zlen_nonneg raw) as Hr0.
+    set (b1 := be_encode 2 k) in *. set (b2 := be_encode 2 (zlen raw)) in *.
+    assert (L1 : length b1 = 2%nat) by apply be_encode_length.
+    assert (L2 : length b2 = 2%nat) by apply be_encode_length.
+    destruct fuel as [|fuel']; [lia|]. cbn [svcb_params_dec].
+    destruct (Nat.leb_spec (length A + length (b1 ++ b2 ++ raw ++ rest)) (length A)) as [Hle|_];
+      [rewrite !app_length in Hle; lia|].
+    rewrite (get_u_at _ _ _ 2 k A (b2 ++ raw ++ rest) P)
+      by (try (subst b1 b2; list_eq'); try (rewrite pow256_2; lia); rewrite ?app_length; lia).
+    cbn [bind fst snd].
+    destruct (k <? prior) eqn:Ekp; [lia|].
+    rewrite (get_u_at _ _ _ 2 (zlen raw) (A ++ b1) (raw ++ rest) P)
+      by (try (subst b1 b2; list_eq'); try (rewrite pow256_2; lia); rewrite ?app_length; lia).
+    cbn [bind fst snd].
+    replace (Z.to_nat (zlen raw)) with (length raw) by (unfold zlen; lia).
+    rewrite (gb_at' _ _ _ _ ((A ++ b1) ++ b2) raw rest P)
+      by (try (subst b1 b2; list_eq'); rewrite ?app_length; lia).
+    cbn [bind fst snd]. rewrite Hok. cbn [negb].
+    assert (Hf2 : (length rest < fuel')%nat) by (rewrite !app_length in Hf; lia).
+    pose proof (IH rest fuel' (((A ++ b1) ++ b2) ++ raw) P k Hv2 Hasc2 E Hf2) as Hrec.
+    replace ((((A ++ b1) ++ b2) ++ raw) ++ rest ++ P) with (A ++ (b1 ++ b2 ++ raw ++ rest) ++ P) in Hrec by list_eq'.
+    replace (length (((A ++ b1) ++ b2) ++ raw) + length rest)%nat
+      with (length A + length (b1 ++ b2 ++ raw ++ rest))%nat in Hrec by (rewrite ?app_length; lia).
+    replace (length (((A ++ b1) ++ b2) ++ raw)) with (length ((A ++ b1) ++ b2) + length raw)%nat in Hrec
+      by (rewrite ?app_length; lia).
+    rewrite Hrec. reflexivity.
+Qed.
+
+Lemma dedupe_last_asc : forall ps prior,
+  forallb svcb_param_row_ok ps = true -> strictly_asc prior (svcb_keys ps) = true -> dedupe_last ps = ps.
+Proof.
+  induction ps as [|r rr IH]; intros prior Hv Hasc; [reflexivity|].
+  cbn [forallb] in Hv. apply andb_prop in Hv as [Hr Hv2].
+  destruct r as [|[k| | ] [|[ |raw| ] [|]]]; cbn [svcb_param_row_ok] in Hr; try discriminate.
+  cbn [svcb_keys flat_map app] in Hasc. fold (svcb_keys rr) in Hasc.
+  cbn [strictly_asc] in Hasc. apply andb_prop in Hasc as [_ Hasc2].
+  destruct rr as [|r2 rr'].
+  - reflexivity.
+  - pose proof Hv2 as Hv2'. cbn [forallb] in Hv2'. apply andb_prop in Hv2' as [Hr2 _].
+    destruct r2 as [|[k2| | ] [|[ |raw2| ] [|]]]; cbn [svcb_param_row_ok] in Hr2; try discriminate.
+    pose proof Hasc2 as Hasc2'. cbn [svcb_keys flat_map app strictly_asc] in Hasc2'.
+    apply andb_prop in Hasc2' as [Hkk _].
+    change (dedupe_last ([VI k; VB raw] :: [VI k2; VB raw2] :: rr'))
+      with (if k =? k2 then dedupe_last ([VI k2; VB raw2] :: rr') else [VI k; VB raw] :: dedupe_last ([VI k2; VB raw2] :: rr')).
+    destruct (k =? k2) eqn:E; [lia|]. f_equal. eapply IH; eauto.
+Qed.
+
+(* AliasMode (priority 0) admits no parameters on the wire: the reader refuses them although the
+   constructor does not - such values are outside the statement *)
+Theorem svcb_roundtrip_thm : forall prio target ps b A P,
+  (prio <> 0 \/ ps = []) ->
+  hand_encode_rdata HSvcb None [VS (VI prio); VS (VN target); VL ps] = Ok b ->
+  hand_decode_rdata HSvcb None (A ++ b ++ P) (length A) (length b) = Ok [VS (VI prio); VS (VN target); VL ps].
+Proof.
+  intros prio target ps b A P Halias He. unfold hand_encode_rdata in He. cbn [hand_valid hand_enc] in He.
+  destruct (svcb_valid [VS (VI prio); VS (VN target); VL ps]) eqn:Hv; [|discriminate].
+  pose proof Hv as Hv0. unfold svcb_valid in Hv.
+  apply andb_prop in Hv as [Hv Hrec]. apply andb_prop in Hv as [Hv Hasc]. apply andb_prop in Hv as [Hv Hrows].
+  apply andb_prop in Hv as [Hv Hname]. apply andb_prop in Hv as [Hp0 Hp1].
+  cbn [svcb_enc] in He.
+  destruct ((0 <=? prio) && (prio <? 65536)) eqn:Hrng; [|discriminate].
+  inv_bind He. inv_bind He. apply Ok_inj in He. subst b. rename x into t, x0 into p.
+  unfold hand_decode_rdata.
+  repeat match goal with |- context [Nat.ltb ?a ?b] =>
+    destruct (Nat.ltb_spec a b) as [Hx|_]; [exfalso; rewrite ?app_length in Hx; lia|] end.
+  cbv zeta. cbn [hand_dec hand_valid]. unfold svcb_dec.
+  set (b1 := be_encode 2 prio). assert (L1 : length b1 = 2%nat) by apply be_encode_length.
+  rewrite (get_u_at _ _ _ 2 prio A (t ++ p) P)
+    by (try (subst b1; list_eq'); try (rewrite pow256_2; lia); rewrite ?app_length; lia).
+  cbn [bind fst snd].
+  assert (Hnok : nok_none true target).
+  { unfold nok_none. unfold name_ok in Hname. destruct (validate_labels target) as [[]| |]; [reflexivity|discriminate|discriminate]. }
+  pose proof (hname_none true target t (A ++ b1) p P Hnok E) as Hn.
+  replace ((A ++ b1) ++ t ++ p ++ P) with (A ++ (b1 ++ t ++ p) ++ P) in Hn by list_eq'.
+  replace (length (A ++ b1) + length t + length p)%nat with (length A + length (b1 ++ t ++ p))%nat in Hn
+    by (rewrite ?app_length; lia).
+  replace (length (A ++ b1)) with (length A + 2)%nat in Hn by (rewrite app_length; lia).
+  rewrite Hn. cbn [bind fst snd].
+  assert (Hplen : ps = [] -> p = []).
+  { intros ->. cbn in E0. apply Ok_inj in E0. auto. }
+  assert (Hal : (prio =? 0) && negb (Nat.eqb (length A + length (b1 ++ t ++ p) - (length A + 2 + length t)) 0) = false).
+  { destruct Halias as [Hne|Hnil].
+    - destruct (prio =? 0) eqn:E1; [lia|reflexivity].
+    - rewrite (Hplen Hnil). rewrite !app_length. cbn [length].
+      replace (length A + (length b1 + (length t + 0)) - (length A + 2 + length t))%nat with 0%nat by lia.
+      cbn. apply andb_false_r. }
+  rewrite Hal.
+  pose proof (svcb_params_rt ps p (S (length p)) ((A ++ b1) ++ t) P (-1) Hrows Hasc E0 ltac:(lia)) as Hps.
+  replace (((A ++ b1) ++ t) ++ p ++ P) with (A ++ (b1 ++ t ++ p) ++ P) in Hps by list_eq'.
+  replace (length ((A ++ b1) ++ t) + length p)%nat with (length A + length (b1 ++ t ++ p))%nat in Hps
+    by (rewrite ?app_length; lia).
+  replace (length ((A ++ b1) ++ t)) with (length A + 2 + length t)%nat in Hps by (rewrite ?app_length; lia).
+  replace (length A + length (b1 ++ t ++ p) - (length A + 2 + length t))%nat with (length p)
+    by (rewrite ?app_length; lia).
+  rewrite Hps. cbn [bind fst snd].
+  rewrite (dedupe_last_asc ps (-1) Hrows Hasc).
+  rewrite Hv0. cbn [negb]. rewrite Nat.eqb_refl. reflexivity.
+Qed.
